@@ -8,7 +8,21 @@ import hashlib, importlib, importlib.machinery, importlib.util, os, subprocess, 
 
 HERE = os.path.dirname(os.path.abspath(__file__))
 ROOT = os.path.dirname(HERE)
-REPO = os.environ.get('GENSHI_REPO', '/repo')
+def _repo_path():
+    """the repository under test: $GENSHI_REPO, else the path in <verif>/.repo_path (scratch
+    worktrees used while developing a check), else /repo"""
+    if os.environ.get('GENSHI_REPO'):
+        return os.environ['GENSHI_REPO']
+    f = os.path.join(ROOT, '.repo_path')
+    if os.path.exists(f):
+        with open(f) as fh:
+            p = fh.read().strip()
+        if p:
+            return p
+    return '/repo'
+
+
+REPO = _repo_path()
 BUILD = os.path.join(ROOT, '.build')
 GUARD = 'GENSHI_VERIF'
 
